@@ -301,11 +301,23 @@ void add_type(Node *node) {
       error_tok(node->cas_addr->tok, "pointer expected");
     if (node->cas_old->ty->kind != TY_PTR)
       error_tok(node->cas_old->tok, "pointer expected");
+    switch (node->cas_addr->ty->base->size) {
+    case 1: case 2: case 4: case 8:
+      break;
+    default:
+      error_tok(node->cas_addr->tok, "atomic operation on an object of this size is not supported");
+    }
     node->cas_new = new_cast(node->cas_new, node->cas_addr->ty->base);
     return;
   case ND_EXCH:
     if (node->lhs->ty->kind != TY_PTR)
       error_tok(node->lhs->tok, "pointer expected");
+    switch (node->lhs->ty->base->size) {
+    case 1: case 2: case 4: case 8:
+      break;
+    default:
+      error_tok(node->lhs->tok, "atomic operation on an object of this size is not supported");
+    }
     node->rhs = new_cast(node->rhs, node->lhs->ty->base);
     node->ty = node->lhs->ty->base;
     return;
